@@ -191,12 +191,7 @@ func checkC05(c *Ctx) {
 		for _, pr := range paths {
 			nc := pathCountCalls(info, pr, isCallTo(commitM))
 			nr := pathCountCalls(info, pr, isCallTo(rollbackM))
-			marker := false
-			for f := range pr.Facts {
-				if strings.HasPrefix(f, "T:ok") || strings.HasPrefix(f, "T:has(") || f == "T:ok" {
-					marker = true
-				}
-			}
+			marker := localFact(last, pr.Facts, true, pr.Exit, defIsResultOf(p.Method(dbT, "InstanceGet"), 1))
 			desc := "path to " + p.Pos(pr.Exit)
 			if nc+nr > 0 {
 				nFinish++
